@@ -831,25 +831,24 @@ func numOp(f frameD, s *scal, forced string) string {
 	return "LONG"
 }
 
+// exoticLabel names the one feature of an item a dropped datapoint is attributed to (for a stable signature):
+// a memo reference to a list, a python-3 bytes name, then the value / timestamp / name kind if it is not the plain
+// one. The full description of the item is in the witness.
 func exoticLabel(f frameD, it itemD) string {
-	var parts []string
-	if it.Same != nil && it.OT == "l" {
+	switch {
+	case it.Same != nil && it.OT == "l":
 		// the very same *list* object a second time: a memo reference to an object that was memoised while still empty
 		return "memo=shared-list"
+	case it.NK == "py3bytes":
+		return "name=" + it.NK + ":" + nameOp(f, it)
+	case it.VK != "int" && it.VK != "float":
+		return "value=" + it.VK + ":" + numOp(f, it.V, it.Vop)
+	case it.TK != "int":
+		return "ts=" + it.TK + ":" + numOp(f, it.TS, it.Tsop)
+	case it.NK != "ascii" && it.NK != "py2str-ascii":
+		return "name=" + it.NK + ":" + nameOp(f, it)
 	}
-	if it.NK != "ascii" && it.NK != "py2str-ascii" {
-		parts = append(parts, "name="+it.NK+":"+nameOp(f, it))
-	}
-	if it.TK != "int" {
-		parts = append(parts, "ts="+it.TK+":"+numOp(f, it.TS, it.Tsop))
-	}
-	if it.VK != "int" && it.VK != "float" {
-		parts = append(parts, "value="+it.VK+":"+numOp(f, it.V, it.Vop))
-	}
-	if len(parts) == 0 {
-		return "plain"
-	}
-	return strings.Join(parts, ",")
+	return "plain"
 }
 
 // expectation for one connection
@@ -1467,6 +1466,29 @@ func main() {
 		pprof.StartCPUProfile(f)
 		defer pprof.StopCPUProfile()
 	}
+	// --replay FILE: re-run exactly the connection a violation was witnessed on (same seed and tier)
+	replayWL, replayIdx := "", -1
+	if rp := os.Getenv("VERIF_REPLAY"); rp != "" {
+		var rf struct {
+			Seed   uint64 `json:"seed"`
+			Tier   string `json:"tier"`
+			Replay struct {
+				Workload string `json:"workload"`
+				Index    int    `json:"index"`
+			} `json:"replay"`
+		}
+		b, err := os.ReadFile(rp)
+		if err != nil || json.Unmarshal(b, &rf) != nil || rf.Replay.Workload == "" {
+			fmt.Fprintln(os.Stderr, "C13: cannot use replay file", rp)
+			os.Exit(2)
+		}
+		os.Setenv("VERIF_SEED", strconv.FormatUint(rf.Seed, 10))
+		os.Setenv("VERIF_TIER", rf.Tier)
+		replayWL, replayIdx = rf.Replay.Workload, rf.Replay.Index
+		if replayWL == "healthy" {
+			replayWL = wlMal
+		}
+	}
 	res := mon.NewResult("C13")
 	mon.InitRepo() // silences the repo's logger (one log line per broken item otherwise)
 	res.Rule = "connections generated from (seed, workload, index): 1-20 frames x 0-200 items, tuples and lists, unicode names (ascii, punctuation, latin-1, BMP, astral), int / negative / >2^31 / float / str values and timestamps, broken items in a third of the connections, CPython protocols 0-4 (workload main), python-3 bytes names (workload py3bytes, known finding K1), python-2 opcode streams protocols 0-2 with forced opcodes (workload py2), one malformed frame of 10 kinds next to a concurrent healthy connection (workload malformed); each stream is fed whole, byte by byte, with every single cut when small, and randomly segmented; non-trivial = at least one datapoint was dispatched through a segmented read and compared with the plain-text path (malformed: the malformed frame was fed); distinct = connections"
@@ -1511,7 +1533,7 @@ func main() {
 		id := 0
 		for _, p := range plans {
 			for i := 0; i < p.n; i++ {
-				if !mon.Mine(i) {
+				if !mon.Mine(i) || (replayIdx >= 0 && (p.workload != replayWL || i != replayIdx)) {
 					continue
 				}
 				c := genConn(seed, p.stream, i, p.o, id)
@@ -1609,8 +1631,10 @@ func main() {
 	for _, p := range plans {
 		res.Count("connections_"+p.workload, count[p.workload])
 	}
-	res.Floor("lines_compared", st.m["lines_compared"], mon.N(40000, 4000000))
-	res.Floor("malformed_frames_fed", st.m["malformed_frames_fed"], nMal)
-	res.Floor("connections", st.m["connections"], nMain+nBytes+nPy2)
+	if replayIdx < 0 {
+		res.Floor("lines_compared", st.m["lines_compared"], mon.N(40000, 4000000))
+		res.Floor("malformed_frames_fed", st.m["malformed_frames_fed"], nMal)
+		res.Floor("connections", st.m["connections"], nMain+nBytes+nPy2)
+	}
 	res.Write()
 }
